@@ -606,6 +606,36 @@ func (sc *Scope) compare(op string, a, b tv) (Term, error) {
 	}
 	sa := eng.sortOf(a.typ)
 	sb := eng.sortOf(b.typ)
+	// an LValue compared with a concrete value type (go-inline copies bind `vali := v` with v a *LTable, LNumber, ...):
+	// the concrete value is converted to the interface value, as the Go assignment does
+	box := func(x sv, t types.Type) (sv, bool) {
+		switch namedNameBare(derefT(t)) {
+		case "LTable":
+			return sv{fmt.Sprintf("(LTabV %s)", x.t)}, true
+		case "LFunction":
+			return sv{fmt.Sprintf("(LFnV %s)", x.t)}, true
+		case "LUserData":
+			return sv{fmt.Sprintf("(LUdV %s)", x.t)}, true
+		case "LState":
+			return sv{fmt.Sprintf("(LThV %s)", x.t)}, true
+		case "LNumber":
+			return sv{fmt.Sprintf("(LNumV %s)", x.t)}, true
+		case "LString":
+			return sv{fmt.Sprintf("(LStrV %s)", x.t)}, true
+		case "LBool":
+			return sv{fmt.Sprintf("(LBoolV %s)", x.t)}, true
+		}
+		return x, false
+	}
+	if sa == "LV" && sb != "LV" {
+		if nb, ok := box(bs, b.typ); ok {
+			bs, sb = nb, "LV"
+		}
+	} else if sb == "LV" && sa != "LV" {
+		if na, ok := box(as, a.typ); ok {
+			as, sa = na, "LV"
+		}
+	}
 	if sa != sb {
 		return "", fmt.Errorf("comparison of %s with %s", typeStr(a.typ), typeStr(b.typ))
 	}
